@@ -49,6 +49,16 @@ def instances(tier):
     fam.append(("2 complex 2x3 kets, prior (3/4,1/4)", [np.array([[1], [0], [0.5j], [0], [0], [0.5]]), np.array([[0], [0.5], [0], [0.25j], [1], [0]])], [0.75, 0.25], [2, 3]))
     fam.append(("2 complex 2x2 density matrices, uniform", [np.diag([0.5, 0.25, 0.25, 0]) + 0.125j * (np.eye(4, k=1) - np.eye(4, k=-1)),
                                                               np.diag([0.25, 0.25, 0.25, 0.25]) + 0.125 * (np.eye(4, k=3) + np.eye(4, k=-3))], None, [2, 2]))
+    # generic (un-normalised, dyadic) kets on 2x3: the PPT values of the 2|3 and of the 3|2 reading of the 6 levels differ
+    fam.append(("3 generic complex 2x3 kets, uniform",
+                [np.array([[1 - 0.5j], [1 - 1j], [0.5 + 0.5j], [-0.5 - 1j], [0.5j], [-1j]]), np.array([[0.5 - 1j], [-0.5], [-0.5 - 0.5j], [1], [-1j], [1 + 0.5j]]),
+                 np.array([[-0.5], [1 - 0.5j], [-0.5 + 1j], [-0.5], [-1 + 1j], [0.5 + 0.5j]])], None, [2, 3]))
+    # mixed storage: the FIRST state is held in a real (float) array, later ones are genuinely complex
+    fam.append(("3 2x2 kets, first stored as a float array, the others complex, prior (1/4,1/2,1/4)",
+                [np.array([[1.0], [0.5], [0], [0.5]]), np.array([[0], [0.5], [-0.5j], [0]]), np.array([[0.5], [0.5j], [0], [0.25]])], [0.25, 0.5, 0.25], [2, 2]))
+    fam.append(("2 2x2 density matrices, first stored as a float array, second complex, uniform",
+                [np.diag([0.25, 0.25, 0.25, 0.25]) + 0.125 * (np.eye(4, k=3) + np.eye(4, k=-3)),
+                 np.diag([0.5, 0.25, 0.25, 0]) + 0.125j * (np.eye(4, k=1) - np.eye(4, k=-1))], None, [2, 2]))
     if tier == "thorough":
         fam.append(("4 complex 2x2 kets", [np.array([[1], [0], [0], [1j]]), np.array([[1], [0], [0], [-1j]]), np.array([[0], [1], [0.5], [0]]), np.array([[0], [0.5j], [1], [0]])], None, [2, 2]))
     return fam
@@ -176,6 +186,14 @@ def obligations(tier):
                         ref_hierarchy, instance=(vs, pp, dims, level), value_of=lambda r: float(r))
             t.weight = 50 if level > 1 else 5
             obs.append(t)
+        # the dimension argument as a single integer (meaning [d, N/d]) and omitted
+        if level_forms := ([("int", dims[0]), ("omitted", None)] if (dims == [2, 3] or name.startswith("2 real 2x2")) else []):
+            for form, darg in level_forms:
+                cfg = {"instance": name, "level": 1, "dim": dims, "dim_arg": form}
+                t = SdpTask("symmetric_extension_hierarchy.program_is_textbook_program", cfg,
+                            (lambda vs=vs, ps=ps, darg=darg: symmetric_extension_hierarchy([np.array(v) for v in vs], ps, 1, darg)),
+                            ref_hierarchy, instance=(vs, pp, dims, 1), value_of=lambda r: float(r))
+                obs.append(t)
     obs.append(ob_list_unchanged("column kets", 4))
     obs.append(ob_list_unchanged("density matrices", 4))
     obs.append(ob_list_unchanged("column kets", 6))
